@@ -19,6 +19,7 @@ structure JSt where
   fetchMinBytes : Int := 4096
   fetchMaxBytes : Int := 32768
   storage : String := "none"
+  retryMax : Nat := 1200
   -- C12
   prodMeta : List (Bytes × (List Int × Nat)) := []
   run : Option (Bytes × List Int) := none
@@ -210,6 +211,7 @@ def trackSettings (s : JSt) (op : OpRec) : JSt :=
   | [_, "set", "fetch_min_bytes", v] => { s with fetchMinBytes := v.toInt?.getD 0 }
   | [_, "set", "fetch_max_bytes", v] => { s with fetchMaxBytes := v.toInt?.getD 0 }
   | [_, "set", "storage", v] => { s with storage := v }
+  | [_, "set", "retry_max", v] => { s with retryMax := v.toNat?.getD 0 }
   | ["client_new", _] => { s with clientId := [], compression := 0, fetchMaxWait := 100, fetchMinBytes := 4096, fetchMaxBytes := 32768, storage := "none" }
   | _ => s
 
@@ -493,6 +495,105 @@ def judgeC11 (ops : List OpRec) : List String :=
     { s with cluster := c' }) ({} : JSt)
   s.out
 
+/-! ### C14 -/
+
+inductive Ans | ok | retry (c : Int) | fatal (c : Int)
+deriving Repr, BEq
+
+/-- classify an answer the way the operation documents it -/
+def classify (api : Int) (b : RespBody) : Option Ans :=
+  match b with
+  | .groupCoordinator e _ _ _ => if api ≠ 10 then none else
+      some (if e = 0 then .ok else if kindOf e = 15 then .retry 15 else .fatal (kindOf e))
+  | .offsetCommit ts => if api ≠ 8 then none else
+      match ts.findSome? fun (_, ps) => ps.findSome? fun (_, e) => if e ≠ 0 then some e else none with
+      | none => some .ok
+      | some e => some (if kindOf e = 14 ∨ kindOf e = 16 then .retry (kindOf e) else .fatal (kindOf e))
+  | .offsetFetch ts => if api ≠ 9 then none else
+      match ts.findSome? fun (_, ps) => ps.findSome? fun (_, _, _, e) => if e ≠ 0 ∧ kindOf e ≠ 3 then some e else none with
+      | none => some .ok
+      | some e => some (if kindOf e = 14 ∨ kindOf e = 16 then .retry (kindOf e) else .fatal (kindOf e))
+  | _ => none
+
+/-- check one maximal run of same-API attempts against the policy: stops at the first non-retryable answer, at most max 1 N -/
+def checkRun (s : JSt) (op : OpRec) (what : String) (N : Nat) (run : List Ans) (cut : Bool := false) : JSt :=
+  let lim := max 1 N
+  let s := if run.length > lim then viol s "C14-too-many-attempts" op s!"{what}: {run.length} attempts with limit {N}" else s
+  -- every answer but the last must be retryable
+  let s := if (run.dropLast.any fun a => match a with | .retry _ => false | _ => true) then
+      viol s "C14-continued-after-final-answer" op s!"{what}: attempts continued after a non-retryable answer: {repr run}" else s
+  -- a retryable last answer is only allowed when the limit is used up
+  match run.getLast? with
+  | some (.retry _) => if run.length < lim ∧ !cut then viol s "C14-gave-up-early" op s!"{what}: stopped after {run.length} retryable answers, limit {N}" else s
+  | _ => s
+
+def judgeC14 (ops : List OpRec) : List String :=
+  let s := ops.foldl (fun (s : JSt) op =>
+    let s := { s with cluster := applySetup s.cluster op.setup }
+    let s := trackSettings s op
+    let (c', bodies) := truthBodies s.cluster op
+    let api : Int := match op.toks with
+      | _ :: "commit_offsets" :: _ => 8
+      | _ :: "fetch_group_offsets" :: _ => 9
+      | _ :: "fetch_group_topic_offset" :: _ => 9
+      | _ => 0
+    let s := if api = 0 then s else
+      let watchdog := op.evs.any fun e => match e with | .io _ "send-fail" => true | _ => false
+      let s := if watchdog then viol s (if api = 8 then "C14-commit-never-returns" else "C14-never-returns") op
+          s!"the call kept sending requests ({bodies.length} before the harness cut the connection), limit {s.retryMax}" else s
+      if watchdog then s else
+      let N := s.retryMax
+      -- main attempts
+      let main : List Ans := bodies.filterMap fun (_, r, b) => if r.header.apiKey = api then classify api b else none
+      -- (a retryable answer may be the last one when the nested coordinator look-up then failed)
+      let lastIsMain0 := match bodies.getLast? with | some (_, r, _) => r.header.apiKey = api | none => false
+      let s := checkRun s op "operation" N main (!lastIsMain0)
+      -- coordinator look-ups: maximal runs between main attempts
+      let runs : List (List Ans) := (bodies.foldl (fun (acc : List (List Ans)) (_, r, b) =>
+          if r.header.apiKey = 10 then
+            match classify 10 b, acc with
+            | some a, cur :: rest => (cur ++ [a]) :: rest
+            | _, _ => acc
+          else [] :: acc) [[]]).filter (!·.isEmpty)
+      let s := runs.foldl (fun s run => checkRun s op "coordinator look-up" N run) s
+      -- result
+      let lookupFailed : Option Ans := (runs.head?.bind (·.getLast?)).bind fun a => match a with | .ok => none | x => some x
+      let lastMain := main.getLast?
+      let lastIsMain := match bodies.getLast? with | some (_, r, _) => r.header.apiKey = api | none => false
+      let want : Option String :=
+        if !lastIsMain then
+          match lookupFailed with
+          | some (.retry c) => some s!"err Kafka({c})"
+          | some (.fatal c) => some s!"err Kafka({c})"
+          | _ => none
+        else match lastMain with
+          | some .ok => none      -- success: value checked by C10/C08
+          | some (.retry c) => some s!"err Kafka({c})"
+          | some (.fatal c) => some s!"err Kafka({c})"
+          | none => none
+      let s := match want with
+        | some w => if op.result == w then s else viol s "C14-result" op s!"returned `{op.result}`, expected `{w}`"
+        | none => if lastIsMain && lastMain == some .ok && op.result.startsWith "err" then viol s "C14-success-lost" op s!"an attempt succeeded but the call returned `{op.result}`" else s
+      -- after 'not coordinator' (16) the next attempt is preceded by a look-up and goes to the broker it names
+      let rec walk : List (Bytes × Request × RespBody) → Bool → Option Bytes → JSt → JSt
+        | [], _, _, s => s
+        | (h, r, b) :: rest, needLookup, named, s =>
+          if r.header.apiKey = 10 then
+            match b with
+            | .groupCoordinator 0 _ host port => walk rest false (some (host ++ strBytes ":" ++ strBytes (toString port))) s
+            | _ => walk rest needLookup named s
+          else if r.header.apiKey = api then
+            let s := if needLookup then viol s "C14-no-relookup" op "an attempt after 'not coordinator for group' was not preceded by a coordinator look-up" else s
+            let s := match named with
+              | some n => if n == h then s else viol s "C14-wrong-broker" op s!"attempt went to {toHexTok h}, the look-up named {toHexTok n}"
+              | none => s
+            let is16 := match classify api b with | some (.retry 16) => true | _ => false
+            walk rest is16 (if is16 then none else named) s
+          else walk rest needLookup named s
+      walk bodies false none s
+    { s with cluster := c' }) ({} : JSt)
+  s.out
+
 def judge (prop : String) (lines : List String) : List String :=
   let ops := parseOps lines
   match prop with
@@ -501,6 +602,7 @@ def judge (prop : String) (lines : List String) : List String :=
   | "C09" => judgeC09 ops
   | "C10" => judgeC10 ops
   | "C11" => judgeC11 ops
+  | "C14" => judgeC14 ops
   | _ => []
 
 end Kafka.Judge
